@@ -68,6 +68,8 @@ def worker_outcome(script, fn, payload, index):
         lst = [{"ok": {"op": "echo"}}]
     o = lst[min(index, len(lst) - 1)]
     out = {"delay": o.get("delay", 0.0), "dup": bool(o.get("dup")), "late_extra": o.get("late_extra")}
+    if o.get("delay_map"):
+        out["delay"] = o["delay_map"].get(canon(payload), out["delay"])
     if "ok" in o:
         out["kind"] = "result"
         out["value"] = apply_transform(o["ok"], fn, payload)
@@ -122,7 +124,7 @@ class Workers(object):
         req = {"t": sim.now, "step": sim.steps, "fn": fn, "payload": payload, "cid": msg.props.correlation_id,
                "reply_to": msg.props.reply_to, "expiration": msg.props.expiration, "index": idx,
                "headers": msg.props.headers, "uid": msg.uid, "redelivered": msg.redelivered,
-               "mid": msg.props.message_id}
+               "mid": msg.props.message_id, "t_pub": msg.published_at}
         self.requests.append(req)
         sim.log("W", "req", fn, msg.props.correlation_id, idx)
         out = None
